@@ -123,4 +123,7 @@ theorem unescapeF_escape (a : Bool) (s : Bytes) : ∀ f, (escape a s).length ≤
     simp only [escape]
     rw [unescapeF_escapeByte a c (escape a r) g, ih g (by omega)]
 
+theorem unescape_escape (a : Bool) (s : Bytes) : unescape (escape a s) = s :=
+  unescapeF_escape a s _ (Nat.le_refl _)
+
 end Nstd.Xml
